@@ -415,6 +415,16 @@ func (p *Prog) FrameObligations(prop string) []*Obligation {
 				obls = append(obls, &c)
 			}
 		}
+	case "C09":
+		// a report from a compiled profile can only equal the report of a fresh validation if processing the data is a
+		// function of the data: the determinism obligations (C06) of the data path are obligations of C09 as well
+		for _, ob := range p.frameObligations0("C06") {
+			if strings.HasPrefix(ob.Name, "det:") && strings.HasPrefix(ob.Func, "validator.") {
+				c := *ob
+				c.Tags = []string{prop}
+				obls = append(obls, &c)
+			}
+		}
 	}
 	return obls
 }
@@ -433,7 +443,7 @@ func (p *Prog) frameObligations0(prop string) []*Obligation {
 	case "C04":
 		return p.doorObligations([]string{"C04"})
 	case "C07":
-		return append(p.c07Obligations(), p.hygBindObligations()...)
+		return append(append(p.c07Obligations(), p.hygBindObligations()...), p.hygShapeObligations()...)
 	case "C10", "C09":
 		tags := []string{prop}
 		var entries []string
